@@ -27,6 +27,12 @@ type Shard struct {
 func GenerateShards(baseId int64, numShards uint32) []Shard {
 	shards := make([]Shard, 0)
 	bucketSize := (math.MaxUint32 / numShards) + 1
+	if numShards > 1 && uint64(bucketSize)*uint64(numShards-1) > math.MaxUint32 {
+		// numShards-1 buckets of the rounded-up size would already exhaust the hash space (the first such
+		// count is 65537): the lower bound of the last shards would wrap around. Round down instead, the
+		// last shard takes the remainder.
+		bucketSize--
+	}
 	for i := uint32(0); i < numShards; i++ {
 		lowerBound := i * bucketSize
 		upperBound := lowerBound + bucketSize - 1
